@@ -209,7 +209,11 @@ def render(case):
     lines = [(t, "code") for t in HEAD]
     body = list(case["body"])
     if case["inc"] is not None:
-        pos = min(len(body), 2)
+        # between complete statements only: never inside a continued statement or literal
+        def complete(k):
+            prev = [t for t, r in body[:k] if r == "code"]
+            return not prev or not re.sub(r"!.*$", "", prev[-1]).rstrip().endswith("&") and not re.search(r"&\s*$", prev[-1])
+        pos = next((k for k in (2, 1, 0, len(body)) if k <= len(body) and complete(k)), 0)
         body = body[:pos] + [('#include "part.inc"', "directive")] + body[pos:]
     lines += body + [(t, "code") for t in TAIL]
     main = "\n".join(t for t, _ in lines) + "\n"
